@@ -2,16 +2,25 @@ package main
 
 // Section Jid: the constants of jid/jid.go that the C11 model and proofs
 // depend on — the forbidden localpart set of localChecks and the length limits
-// of localChecks, resourceChecks and normalizeDomainpart.
+// of localChecks, resourceChecks and normalizeDomainpart — and the inventory of
+// write sites of the jid package (every slice written through append, an
+// Append method, copy or an indexed assignment), each classified by where the
+// written slice comes from.
 
 import (
+	"bytes"
 	"go/ast"
+	"go/printer"
 	"go/token"
+	"os"
+	"path/filepath"
+	"sort"
 	"strconv"
+	"strings"
 )
 
 func init() {
-	sections = append(sections, section{"Jid", func(g *gen) { g.jidConst() }})
+	sections = append(sections, section{"Jid", func(g *gen) { g.jidConst(); g.jidWrites() }})
 }
 
 // lenLimit finds a comparison `len(<ident>) <op> <int>` or `<ident> <op> <int>`
@@ -114,4 +123,252 @@ func (g *gen) jidConst() {
 	g.p("Definition jid_resource_max : N := %d.\n", rmax)
 	g.p("Definition jid_domain_min : N := %d.\n", dmin)
 	g.p("Definition jid_domain_max : N := %d.\n", dmax)
+}
+
+// ---- write sites ----
+//
+// JID values share backing arrays (Bare, Domain, Copy, WithResource("") reslice
+// or copy the struct).  The heap model of C11 (coq/C11/ProofsHeap.v) proves that
+// no call changes an earlier value from the fact that every write goes to an
+// array made in the same call.  That fact is read here from the source: for
+// every function of jid/jid.go and jid/unsafe.go (and every function of another
+// non-test file of the package that touches a .data field) each written slice
+//   append(X, ...)   recv.Append(X, ...)   copy(X, ...)   X[i] = ...   X[i]++
+// is WFresh when X is a local variable (not a parameter, receiver or named
+// result) all of whose assignments are make(...), a self-append
+// (append(X, ...) / recv.Append(X, ...)) or a declaration without value, and
+// WShared otherwise.
+
+func exprString(fset *token.FileSet, e ast.Expr) string {
+	var b bytes.Buffer
+	printer.Fprint(&b, fset, e)
+	return b.String()
+}
+
+func isCallTo(e ast.Expr, name string) (*ast.CallExpr, bool) {
+	c, is := e.(*ast.CallExpr)
+	if !is {
+		return nil, false
+	}
+	if id, is := c.Fun.(*ast.Ident); is && id.Name == name {
+		return c, true
+	}
+	return nil, false
+}
+
+// selfAppend: append(v, ...) or recv.Append(v, ...)
+func selfAppend(e ast.Expr, v string) bool {
+	c, is := e.(*ast.CallExpr)
+	if !is || len(c.Args) < 1 {
+		return false
+	}
+	a0, is := c.Args[0].(*ast.Ident)
+	if !is || a0.Name != v {
+		return false
+	}
+	if id, is := c.Fun.(*ast.Ident); is && id.Name == "append" {
+		return true
+	}
+	if sel, is := c.Fun.(*ast.SelectorExpr); is && sel.Sel.Name == "Append" {
+		return true
+	}
+	return false
+}
+
+// localFresh: v is a local of fd only ever holding make(...) or its own appends.
+func localFresh(fd *ast.FuncDecl, v string) bool {
+	bound := func(fl *ast.FieldList) bool {
+		if fl == nil {
+			return false
+		}
+		for _, f := range fl.List {
+			for _, n := range f.Names {
+				if n.Name == v {
+					return true
+				}
+			}
+		}
+		return false
+	}
+	if bound(fd.Recv) || bound(fd.Type.Params) || bound(fd.Type.Results) {
+		return false
+	}
+	defs, ok := 0, true
+	rhsOK := func(e ast.Expr) bool {
+		if _, is := isCallTo(e, "make"); is {
+			return true
+		}
+		return selfAppend(e, v)
+	}
+	ast.Inspect(fd.Body, func(n ast.Node) bool {
+		switch x := n.(type) {
+		case *ast.AssignStmt:
+			for k, l := range x.Lhs {
+				id, is := l.(*ast.Ident)
+				if !is || id.Name != v {
+					continue
+				}
+				defs++
+				switch {
+				case len(x.Rhs) == len(x.Lhs):
+					if !rhsOK(x.Rhs[k]) {
+						ok = false
+					}
+				case len(x.Rhs) == 1 && k == 0:
+					if !rhsOK(x.Rhs[0]) {
+						ok = false
+					}
+				default:
+					ok = false
+				}
+			}
+		case *ast.ValueSpec:
+			for k, id := range x.Names {
+				if id.Name != v {
+					continue
+				}
+				defs++
+				if len(x.Values) == 0 {
+					continue // nil slice: any append allocates
+				}
+				if k >= len(x.Values) || !rhsOK(x.Values[k]) {
+					ok = false
+				}
+			}
+		case *ast.RangeStmt:
+			for _, e := range []ast.Expr{x.Key, x.Value} {
+				if id, is := e.(*ast.Ident); is && id.Name == v {
+					ok = false
+				}
+			}
+		case *ast.UnaryExpr:
+			if x.Op == token.AND {
+				if id, is := x.X.(*ast.Ident); is && id.Name == v {
+					ok = false // address taken
+				}
+			}
+		}
+		return true
+	})
+	return ok && defs > 0
+}
+
+type wsite struct {
+	fn, target string
+	fresh      bool
+}
+
+func writeSites(fset *token.FileSet, fd *ast.FuncDecl) []wsite {
+	var out []wsite
+	if fd.Body == nil {
+		return out
+	}
+	add := func(e ast.Expr) {
+		fresh := false
+		if id, is := e.(*ast.Ident); is {
+			fresh = localFresh(fd, id.Name)
+		}
+		out = append(out, wsite{fd.Name.Name, exprString(fset, e), fresh})
+	}
+	ast.Inspect(fd.Body, func(n ast.Node) bool {
+		switch x := n.(type) {
+		case *ast.CallExpr:
+			if len(x.Args) >= 1 {
+				if id, is := x.Fun.(*ast.Ident); is && (id.Name == "append" || id.Name == "copy") {
+					add(x.Args[0])
+				}
+				if sel, is := x.Fun.(*ast.SelectorExpr); is && (sel.Sel.Name == "Append" || sel.Sel.Name == "Transform") && len(x.Args) >= 2 {
+					add(x.Args[0])
+				}
+			}
+		case *ast.AssignStmt:
+			for _, l := range x.Lhs {
+				if ix, is := l.(*ast.IndexExpr); is {
+					add(ix.X)
+				}
+			}
+		case *ast.IncDecStmt:
+			if ix, is := x.X.(*ast.IndexExpr); is {
+				add(ix.X)
+			}
+		}
+		return true
+	})
+	return out
+}
+
+func touchesData(fd *ast.FuncDecl) bool {
+	found := false
+	if fd.Body == nil {
+		return false
+	}
+	ast.Inspect(fd.Body, func(n ast.Node) bool {
+		if sel, is := n.(*ast.SelectorExpr); is && sel.Sel.Name == "data" {
+			found = true
+		}
+		return true
+	})
+	return found
+}
+
+func (g *gen) jidWrites() {
+	ents, err := os.ReadDir(filepath.Join(*repo, "jid"))
+	if err != nil {
+		g.errs = append(g.errs, "jid: "+err.Error())
+		return
+	}
+	var names []string
+	for _, e := range ents {
+		n := e.Name()
+		if strings.HasSuffix(n, ".go") && !strings.HasSuffix(n, "_test.go") && n != "jid.go" && n != "unsafe.go" {
+			names = append(names, n)
+		}
+	}
+	sort.Strings(names)
+	names = append([]string{"jid.go", "unsafe.go"}, names...)
+	var sites []wsite
+	var writers []string
+	for _, n := range names {
+		f := g.parse("jid/" + n)
+		if f == nil {
+			return
+		}
+		if f.Name.Name != "jid" {
+			continue
+		}
+		whole := n == "jid.go" || n == "unsafe.go"
+		for _, d := range f.Decls {
+			fd, is := d.(*ast.FuncDecl)
+			if !is || !(whole || touchesData(fd)) {
+				continue
+			}
+			ws := writeSites(g.fset, fd)
+			if len(ws) > 0 {
+				writers = append(writers, fd.Name.Name)
+			}
+			sites = append(sites, ws...)
+		}
+	}
+	g.p("\n(* ---- write sites of package jid: (function:written slice, origin) ---- *)\n")
+	g.p("Inductive wkind := WFresh | WShared.\n")
+	g.p("Definition jid_write_sites : list (bytes * wkind) := [")
+	for i, s := range sites {
+		if i > 0 {
+			g.p(";")
+		}
+		k := "WShared"
+		if s.fresh {
+			k = "WFresh"
+		}
+		g.p("\n  (hex \"%s\", %s)  (* %s: %s *)", hexOf([]byte(s.fn+":"+s.target)), k, s.fn, strings.ReplaceAll(s.target, "*)", "* )"))
+	}
+	g.p("].\n")
+	g.p("Definition jid_writers : list bytes := [")
+	for i, w := range writers {
+		if i > 0 {
+			g.p("; ")
+		}
+		g.p("hex \"%s\" (* %s *)", hexOf([]byte(w)), w)
+	}
+	g.p("].\n")
 }
